@@ -348,6 +348,9 @@ class CopyOverlay(CopySuite):
                 k = rng.randrange(len(cs))
                 esc = lambda c: b"".join(b"\\" + bytes([x]) if x in b"*?[]\\" else bytes([x]) for x in c)
                 pat = [esc(c) for c in cs[:k]] + [rng.choice([b"*", esc(cs[k][:1]) + b"*", b"?" * max(1, len(cs[k])), b"*" + esc(cs[k][-1:])])]
+                if k + 1 < len(cs) and rng.random() < 0.5:
+                    # the wildcard is not in the last component ("*/conf", "pkg?/go.*")
+                    pat.append(rng.choice([esc(cs[k + 1]), esc(cs[k + 1][:1]) + b"*"]))
                 a["src"] = hx(b"/" + b"/".join(pat))
                 a["wild"] = True
                 # (a destination that is or becomes a directory: several matches onto one non-directory name is not a union)
@@ -616,6 +619,29 @@ class CopyEscape(CopySuite):
                     a["exclude"] = [hx(dn), hx(b"!" + dn + b"/" + leaf)]
                 if rng.random() < 0.6:
                     a["replace"] = True
+            if rng.random() < 0.05:
+                # a destination symlink where the source has a DIRECTORY; its text, read as if the destination root were "/", names a
+                # directory that exists inside the root, while the kernel takes it to the sentinel of the same path outside
+                dn = rng.choice([b"D", b"lib", b"a"])
+                tgt, mirror = rng.choice([(b"/outside/d", [b"outside", b"outside/d"]), (b"../outside/d", [b"outside", b"outside/d"]),
+                                          (b"/outside", [b"outside"]), (b"../../outside/d", [b"outside", b"outside/d"])])
+                tree = [e for e in tree if bytes.fromhex(e["p"]).split(b"/")[0] != dn]
+                tree += [{"p": hx(dn), "t": "dir", "uid": 0, "gid": 0, "mt": gen.MTIMES[0], "mode": rng.choice([0o755, 0o777])},
+                         {"p": hx(dn + b"/" + rng.choice([b"evil", b"g", b"f"])), "t": "file", "size": 3, "uid": 0, "gid": 0, "mt": gen.MTIMES[1], "mode": 0o644}]
+                tree.sort(key=lambda e: gen.pathkey(bytes.fromhex(e["p"])))
+                dst = [e for e in dst if bytes.fromhex(e["p"]).split(b"/")[0] not in (dn, b"outside")]
+                dst += [{"p": hx(m), "t": "dir", "uid": 0, "gid": 0, "mt": gen.MTIMES[0], "mode": 0o755} for m in mirror]
+                dst.append({"p": hx(dn), "t": "symlink", "ln": hx(tgt), "uid": 0, "gid": 0, "mt": gen.MTIMES[0], "mode": 0o777})
+                dst.sort(key=lambda e: gen.pathkey(bytes.fromhex(e["p"])))
+                a = {"src": hx(rng.choice([b"/", b"/" + dn])), "dst": hx(b"/")}
+                if bytes.fromhex(a["src"]) != b"/":
+                    a["dst"] = hx(b"/" + dn)
+                    if rng.random() < 0.5:
+                        a["cdc"] = True
+                if rng.random() < 0.3:
+                    a["include"] = [hx(dn + b"/*")]
+                ops.append(self.mk(tree, dst, a))
+                continue
             if rng.random() < 0.05:
                 # wildcard matches copied onto ONE destination name that is an existing non-directory: the first match (a symlink to a
                 # sentinel directory) takes the name, the next ones must not be written through it
